@@ -1,5 +1,6 @@
 """C06 — headers and data do not depend on how entry bodies are consumed."""
 from props._read import Cons
+from props._rdd import Rdd
 
 PROP = 'C06'
 PROPS_MODULES = ['LA.Props.C06']
@@ -14,4 +15,4 @@ MANIFEST = {
             'corpus under per-entry choices {read_data any buffers, read_data_block, prefix, skip, nothing}.',
     'note': 'Format-specific skip logic of unmodelled parsers is covered only by the differential.',
 }
-ENGINES = [Cons()]
+ENGINES = [Cons(), Rdd()]
